@@ -6,6 +6,7 @@ from pyModeS.decoder import uplink as U
 from ref import crc24, frames
 from vlib import gen
 from vlib import volume
+from vlib import variants
 from vlib.core import Leg, call
 
 PROPERTY = "C18"
@@ -14,7 +15,7 @@ RULE = ("uplink frames built from Annex 10 field layouts with the address/parity
         "UF4/5/20/21: RR(32) x DI(8) x SD (16 bits: all single bits, 0, 0xFFFF and random; exhaustive per DI in the thorough tier) with the rest random; "
         "every UF 0..31. Oracle: the encoded UF/RR/DI/RRS/PR/IC/LOS/LSS values; uplink_fields must agree with the single-field functions. "
         "non-trivial = address and payload non-zero, or any non-zero control field"
-        ' Also: every call repeated (the same interrogation is seen again and again) and the dict returned by uplink_fields kept while another interrogation is decoded, 40 000 / 1.2 million distinct interrogations in a row in one process with identical frames coming back after 4 100 ... 1 050 000 others (leg volume).')
+        ' Also: every call repeated (the same interrogation is seen again and again) and the dict returned by uplink_fields kept while another interrogation is decoded, 40 000 / 1.2 million distinct interrogations in a row in one process with identical frames coming back after 4 100 ... 1 050 000 others (leg volume), the first calls of a freshly imported package made by four threads at once (leg first_use).')
 ASSUMPTIONS = ["SD sub-fields per Annex 10 Vol IV 3.1.2.6.1.4.1: IIS 17-20 (DI 0,1,7), RRS 21-24 and LOS 26 (DI 7), LOS 26 (DI 1), SIS 17-22, LSS 23, RRS 24-27 (DI 3)",
                "interrogator code for CL 5-7 and for DI 2,4,5,6 is unconstrained", "'' and None both count as 'no value' in uplink_fields"]
 
@@ -238,7 +239,23 @@ def vol_step(a, b, k):
     return None
 
 
+# ---------------------------------------------------------------- first calls of a freshly imported package, four threads at once
+def first_jobs(rng):
+    jobs = []
+    for _ in range(30):
+        n = rng.choice([56, 112])
+        addr = rng.getrandbits(24)
+        msg = frames.tohex(crc24.uplink_frame(rng.getrandbits(n - 24), n - 24, addr), n, rng.choice("UL"))
+        jobs.append(("decoder.uplink.uplink_icao", (msg,), (lambda got, a=addr: None if got[0] == "ok" and isinstance(got[1], str) and got[1].upper() == "%06X" % a else "interrogated address %06X" % a)))
+        pr, icf, cl = rng.getrandbits(4), rng.getrandbits(4), rng.randrange(5)
+        m11 = upl(11, (pr << 23) | (icf << 19) | (cl << 16) | rng.getrandbits(16), 56, rng.getrandbits(24))
+        jobs.append(("decoder.uplink.pr", (m11,), ("ok", pr)))
+        jobs.append(("decoder.uplink.uf", (m11,), ("ok", 11)))
+    return jobs
+
+
 LEGS = [
+    variants.first_use_leg(first_jobs),
     volume.leg(vol_step, 40000, 1200000, "40 000 (thorough: 1.2 million per process) distinct roll-call interrogations in one process; identical frames decoded again after 4100 ... 1 050 000 others; four concurrent callers at the end"),
     Leg("uplink_icao", chk_icao, strategy=s_icao, quick=20000, thorough=1500000, doc="address recovery through the uplink AP encoder"),
     Leg("uf11", chk_uf11, enum=enum_uf11, exhaustive=True, doc="PR x IC x CL"),
